@@ -63,8 +63,8 @@ def handle (toks : List String) : String :=
     -- mode NonCached: the caller then adds the cache filled by an earlier CachedAndNonCached realization
     let cache : V := if mode == .nonCached then C17.cacheSum forces else 0
     if !C17.ThreadSafe st then
-      -- outside the validity of the transition-system model (non-parallel task on >= 2 workers, see
-      -- `threads_after_topology_unsafe`): print what the property demands, the serial sum over the enabled forces
+      -- outside the validity of the transition-system model (non-parallel task on >= 2 workers): unreachable for the
+      -- current transition (`threadSafe_reachable`); kept so that a regression of the model prints the demanded sum
       " ".intercalate (["O", "cf"] ++ (padTo D (C17.serialSumD mode forces + cache)).map toString)
     else
     let c := C17.configOfState st mode all
